@@ -1,4 +1,4 @@
-import QProofs.MachineExch
+import QProofs.MachineCompExch
 /-!
 # C03 (exchange moves) — a rejected or failed insertion / deletion leaves the system exactly as it was
 
@@ -18,6 +18,20 @@ theorem reject_restores_exchange (sim : Sim) (he : sim.ens = .grand) (r : Nat) (
     (hnew : toAddOf (s.obj r) s.ctx ≠ []) :
     (trial sim (.leaf r) false s).2.atoms = s.atoms :=
   exch_not_accepted_restores sim he r s hinv hk hlab hnew
+
+/-- **reject_restores (composite insertion)**: `CompositeExchangeMove` in its insertion branch -/
+theorem reject_restores_composite_insertion (sim : Sim) (he : sim.ens = .grand) (rs : List Nat) (b : Nat)
+    (s : State) (hinv : InvG s) (hadd : s.inp.draw.1 < b) :
+    (trial sim (.compExch rs b) false s).2.atoms = s.atoms :=
+  compExch_insertion_not_accepted_restores sim he rs b s hinv hadd
+
+/-- **reject_restores (composite deletion)**: `CompositeExchangeMove` in its deletion branch, members sharing one
+    labelling `L` (what `move * n` and `+` on one labelling produce) -/
+theorem reject_restores_composite_deletion (sim : Sim) (he : sim.ens = .grand) (rs : List Nat) (b : Nat)
+    (s : State) (hinv : InvG s) (L : List Int) (hL : ∀ r ∈ rs, (s.obj r).labels = L)
+    (hlen : L.length = s.atoms.rows.length) (hdel : ¬ s.inp.draw.1 < b) :
+    (trial sim (.compExch rs b) false s).2.atoms = s.atoms :=
+  compExch_deletion_not_accepted_restores sim he rs b s hinv L hL hlen hdel
 
 /-! non-vacuity: a rejected deletion of a fixed atom (the constraint comes back), and a rejected insertion -/
 
@@ -39,6 +53,12 @@ example : (trial gcSim (.leaf 0) false (gcState 0)).2.atoms = (gcState 0).atoms 
 -- insertion (bias 1000)
 example : (callTree (.leaf 0) (gcState 1000)).2.atoms.rows.length = 4 ∧
     (trial gcSim (.leaf 0) false (gcState 1000)).2.atoms = (gcState 1000).atoms := by decide
+
+-- a composite of two insertions, then rejected; a composite deletion of two particles (one of them fixed), rejected
+example : (callTree (.compExch [0, 0] 1000) { gcState 0 with inp := { draws := [0], ops := [(1,0,0), (0,1,0)], checks := [true, true] } }).2.atoms.rows.length = 5 ∧
+    (trial gcSim (.compExch [0, 0] 1000) false { gcState 0 with inp := { draws := [0], ops := [(1,0,0), (0,1,0)], checks := [true, true] } }).2.atoms = (gcState 0).atoms := by decide
+example : (callTree (.compExch [0, 0] 0) { gcState 0 with inp := { draws := [0, 1, 0] } }).2.atoms.rows.length = 1 ∧
+    (trial gcSim (.compExch [0, 0] 0) false { gcState 0 with inp := { draws := [0, 1, 0] } }).2.atoms = (gcState 0).atoms := by decide
 
 /-- **known finding, as a theorem**: two deletions inside one *plain* composite are recorded in different index
     frames; the rejection does not restore the atoms. -/
